@@ -5,7 +5,7 @@
 
 Require Extraction.
 Require Import ExtrOcamlBasic.
-From Sodg Require Import Base Text Hex Label Sodg Esort Print Export Slice Merge Serial Script Spec SpecDec XShow HexMore.
+From Sodg Require Import Base Text Hex Label Sodg Esort Print Export Slice Merge Serial Script Spec SpecDec XShow HexMore XJoin.
 
 Extraction Language OCaml.
 
@@ -34,4 +34,8 @@ Extraction "Model.ml"
   (* reference model *)
   sinit sstep preb s_keys
   (* extraction cross-check *)
-  xshow_run.
+  xshow_run
+  (* join and graphs with vacant slots (XJoin.v) *)
+  x_empty x_add x_bind x_put x_data x_kids x_kid x_keys x_len x_next_id x_clone
+  x_slice x_slice_some x_merge x_join x_debug x_vprint x_inspect x_to_xml x_to_dot
+  x_encode x_deploy is_hole.
